@@ -1106,6 +1106,184 @@ Proof.
     fold (cfed r). rewrite (IH p1 I1 Hr u).
     destruct (crun maxc p1 r) as [[p2 d2] e2]. reflexivity.
 Qed.
+
+(* ---- progress: a call with dest = None stops only where it must ---- *)
+(* Break with no capacity limit: the parser stands at the terminator, or no terminator lies in the
+   unparsed bytes (they are exhausted, or end inside a header / a GetValues pair).  Err: the parser
+   stands at an AbortRequest / unknown-version header, so the stream does not end properly. *)
+Definition b_post (l : alstate) (fl : aflow) : Prop :=
+  match fl with
+  | AContinue l' => acap l = None -> acap l' = None
+  | ABreak l' => acap l = None -> at_term (al l') = true \/ E (al l') [] = false
+  | AErr l' _ => forall u, E (al l') u = false
+  | APanic _ => True
+  end.
+
+Lemma b_post_trans l1 l2 fl : b_post l1 (AContinue l2) -> b_post l2 fl -> b_post l1 fl.
+Proof.
+  cbn [b_post]. intros H12 H. destruct fl as [l'|l'|l' e|n]; cbn [b_post] in *; auto.
+Qed.
+
+Lemma pfin_B a parsed' out' st' res cap' n :
+  (n = N.min (a_prem a) (len (a_raw a)) \/ len (a_raw a) < a_prem a) ->
+  match pfin' a parsed' out' st' res cap' n with
+  | AContinue l' => acap l' = cap'
+  | ABreak l' => E (al l') [] = false
+  | _ => True
+  end.
+Proof.
+  intros Hn. unfold pfin'. cbv zeta.
+  destruct (N.ltb_spec (N.min (a_prem a) (len (a_raw a))) n) as [Hlt|Hle]; [exact I|].
+  cbn [a_prem].
+  destruct ((a_prem a - n =? 0) && (n <? len (a_raw a))) eqn:Hc; [reflexivity|].
+  unfold E. cbn [al a_B a_space a_parsed a_raw a_out a_req a_stream a_prem a_pad a_st]. rewrite app_nil_r.
+  apply andb_false_iff in Hc.
+  assert (Hcases : len (a_raw a) < a_prem a \/ n = len (a_raw a)).
+  { destruct Hn as [Hn|Hn]; [|left; exact Hn].
+    destruct Hc as [Hc|Hc]; [apply N.eqb_neq in Hc|apply N.ltb_ge in Hc]; lia. }
+  destruct Hcases as [Hlt|Heq].
+  - rewrite EF_prem by lia. rewrite len_drop.
+    destruct (N.ltb_spec (len (a_raw a) - n) (a_prem a - n)) as [_|Hge]; [reflexivity|lia].
+  - rewrite (drop_all n (a_raw a)) by lia. apply EF_nil.
+Qed.
+
+Lemma payload_B l : b_post l (aparse_payload maxc l).
+Proof.
+  rewrite aparse_payload_eq. cbv zeta. destruct l as [a res cap]. cbn [al ares acap].
+  assert (G : forall parsed' out' st' res' cap' n,
+             (cap = None -> cap' = None) ->
+             (cap = None -> n = N.min (a_prem a) (len (a_raw a)) \/ len (a_raw a) < a_prem a) ->
+             b_post (mkAL a res cap) (pfin' a parsed' out' st' res' cap' n)).
+  { intros parsed' out' st' res' cap' n Hcap Hn.
+    destruct cap as [c|].
+    - unfold pfin'. cbv zeta. destruct (_ <? n); [exact I|].
+      match goal with |- b_post _ (if ?c then _ else _) => destruct c end; cbn [b_post acap]; discriminate.
+    - specialize (Hn eq_refl). specialize (Hcap eq_refl). subst cap'.
+      pose proof (pfin_B a parsed' out' st' res' None n Hn) as H.
+      unfold pfin' in *. cbv zeta in *.
+      destruct (N.min (a_prem a) (len (a_raw a)) <? n); [exact I|].
+      match goal with |- b_post _ (if ?c then _ else _) => destruct c end; cbn [b_post acap].
+      + intros _. reflexivity.
+      + intros _. right. exact H. }
+  destruct (a_st a).
+  - destruct cap as [c|].
+    + apply G; intros H; discriminate H.
+    + apply G; intros _; [reflexivity|left; reflexivity].
+  - apply G; intros H; [exact H|left; reflexivity].
+  - destruct (nv_run (take (N.min (a_prem a) (len (a_raw a))) (a_raw a))) as [ps rest].
+    destruct (N.ltb_spec (len (a_raw a)) (a_prem a)) as [Hlt|Hge].
+    + apply G; intros H; [exact H|right; exact Hlt].
+    + apply G; intros H; [exact H|left; reflexivity].
+Qed.
+
+Lemma hgo_B l st cl pl out added : b_post l (StreamInv.hgo l st cl pl out added).
+Proof. unfold StreamInv.hgo. cbn [b_post acap]. intros H; exact H. Qed.
+
+Lemma head_B l : a_prem (al l) = 0 -> a_pad (al l) = 0 -> b_post l (aparse_head l).
+Proof.
+  intros Hp Hq. rewrite aparse_head_eq. cbv zeta.
+  destruct (negb (a_boundary (al l))); [exact I|].
+  destruct (N.ltb_spec (len (a_raw (al l))) HEADER_LEN) as [Hl|Hl].
+  { cbn [b_post]. intros _. right. unfold E. rewrite Hp, Hq, app_nil_r. apply EF_short. exact Hl. }
+  assert (HE : forall u, E (al l) u =
+     ef_hd (r_role (a_req (al l))) (r_id (a_req (al l))) (a_stream (al l))
+           (take HEADER_LEN (a_raw (al l))) (drop HEADER_LEN (a_raw (al l)) ++ u)).
+  { intros u. unfold E. rewrite Hp, Hq. apply EF_head_app. exact Hl. }
+  assert (HT : at_term (al l) =
+     match hdr_decode (take HEADER_LEN (a_raw (al l))) with
+     | HOk t rid cl pl =>
+       is_input_stream t && (rid =? r_id (a_req (al l))) &&
+       match cmp_input_streams (r_role (a_req (al l))) t (a_stream (al l)) with
+       | Some Eq => cl =? 0 | Some Gt => true | _ => false end
+     | _ => false
+     end).
+  { unfold at_term, at_terminator, rl, ri. rewrite Hp, Hq.
+    destruct (N.leb_spec HEADER_LEN (len (a_raw (al l)))) as [_|Hc]; [|lia]. reflexivity. }
+  unfold ef_hd in HE.
+  destruct (hdr_decode (take HEADER_LEN (a_raw (al l)))) as [t hid cl pl|v|t].
+  - destruct (is_input_stream t && (hid =? r_id (a_req (al l)))) eqn:Hin.
+    + destruct (cmp_input_streams (r_role (a_req (al l))) t (a_stream (al l))) as [[| |]|].
+      * apply hgo_B.
+      * destruct (cl =? 0) eqn:Hcl; cbn [negb].
+        -- cbn [b_post al]. intros _. left. rewrite HT. reflexivity.
+        -- apply hgo_B.
+      * cbn [b_post al]. intros _. left. rewrite HT. reflexivity.
+      * exact I.
+    + destruct ((t =? RT_AbortRequest) && (hid =? r_id (a_req (al l)))).
+      { cbn [b_post]. intros u. rewrite HE. reflexivity. }
+      destruct ((t =? RT_BeginRequest) && negb (hid =? r_id (a_req (al l)))); [apply hgo_B|].
+      destruct ((t =? RT_GetValues) && hdr_is_management t hid); apply hgo_B.
+  - cbn [b_post]. intros u. rewrite HE. reflexivity.
+  - apply hgo_B.
+Qed.
+
+Lemma after_payload_B l : b_post l (after_payload l).
+Proof.
+  unfold after_payload. cbv zeta.
+  destruct (N.ltb_spec 0 (a_pad (al l))) as [Hq|Hq].
+  - destruct (N.eqb_spec (a_prem (al l)) 0) as [Hp|Hp]; cbn [negb]; [|exact I].
+    destruct (N.leb_spec (len (a_raw (al l))) (a_pad (al l))) as [Hl|Hl].
+    + cbn [b_post al]. intros _. right. unfold a_set, E.
+      cbn [a_B a_space a_parsed a_raw a_out a_req a_stream a_prem a_pad a_st app]. apply EF_nil.
+    + set (l2 := mkAL (a_set (al l) (a_parsed (al l)) (drop (a_pad (al l)) (a_raw (al l))) (a_out (al l))
+                              (a_prem (al l)) 0 (a_st (al l))) (ares l) (acap l)).
+      apply (b_post_trans l l2).
+      * cbn [b_post]. intros H; exact H.
+      * apply head_B; unfold l2, a_set; cbn [al a_prem a_pad]; [exact Hp|reflexivity].
+  - destruct (N.eq_dec (a_prem (al l)) 0) as [Hp|Hp].
+    + apply head_B; [exact Hp|lia].
+    + rewrite aparse_head_eq. cbv zeta. unfold a_boundary.
+      destruct (N.eqb_spec (a_prem (al l)) 0) as [Hz|_]; [contradiction|]. cbn [andb negb]. exact I.
+Qed.
+
+Lemma iter_B l : b_post l (aparse_iter maxc l).
+Proof.
+  rewrite aparse_iter_eq.
+  destruct (0 <? a_prem (al l)); [|apply after_payload_B].
+  pose proof (payload_B l) as H.
+  destruct (aparse_payload maxc l) as [l'|l'|l' e|n].
+  - apply (b_post_trans _ _ _ H). apply after_payload_B.
+  - exact H.
+  - exact H.
+  - exact I.
+Qed.
+
+Lemma loop_B fuel : forall l,
+  match aparse_loop maxc fuel l with AContinue _ => False | x => b_post l x end.
+Proof.
+  induction fuel as [|f IH]; intros l; [exact I|].
+  cbn [aparse_loop]. destruct (a_raw (al l)) as [|b r] eqn:Er.
+  { cbn [b_post]. intros _. right. unfold E. rewrite Er. cbn [app]. apply EF_nil. }
+  pose proof (iter_B l) as H.
+  destruct (aparse_iter maxc l) as [l'|l'|l' e|n].
+  - pose proof (IH l') as H2.
+    destruct (aparse_loop maxc f l') as [l2|l2|l2 e|n]; [exact H2| | |exact I];
+      apply (b_post_trans _ _ _ H H2).
+  - exact H.
+  - exact H.
+  - exact I.
+Qed.
+
+(* Ok with dest = None: at the terminator, or no terminator in what is left in the buffer.
+   Err (any dest): the stream does not end. *)
+Theorem progress_law a new dest a' s :
+  (aparse maxc a new dest = AOk a' s -> dest = None -> at_term a' = true \/ E a' [] = false) /\
+  (forall e, aparse maxc a new dest = AFail a' e s -> forall u, E a' u = false).
+Proof.
+  unfold aparse.
+  destruct (match dest with Some _ => negb (len (a_parsed a) =? 0) | None => false end).
+  { split; [intros H; discriminate H|intros e H; discriminate H]. }
+  destruct (a_space a <? len new).
+  { split; [intros H; discriminate H|intros e H; discriminate H]. }
+  cbv zeta.
+  match goal with |- context [aparse_loop maxc ?f ?l] =>
+    pose proof (loop_B f l) as H; destruct (aparse_loop maxc f l) as [l'|l'|l' e'|n] end;
+    cbn [b_post acap] in H.
+  - contradiction.
+  - split; [|intros e Hr; discriminate Hr]. intros Hr ->. inversion Hr; subst a' s. apply H. reflexivity.
+  - split; [intros Hr; discriminate Hr|]. intros e Hr. inversion Hr; subst a' s. exact H.
+  - split; [intros Hr; discriminate Hr|intros e Hr; discriminate Hr].
+Qed.
 End EndsMachine.
 
 (* ================================================================================================ *)
